@@ -200,8 +200,8 @@ impl Prop for C03 {
     }
     fn runs(&self, tier: Tier) -> u64 {
         match tier {
-            Tier::Quick => 150,
-            Tier::Thorough => 3000,
+            Tier::Quick => 1500,
+            Tier::Thorough => 30000,
         }
     }
     fn rule(&self) -> &'static str {
